@@ -56,6 +56,12 @@ def gen_cases(ctx):
                     base = {"n": n, "ids": ids, "pattern": pname,
                             "answers": [[times[k], "answer", perm[k]] for k in range(n)]}
                     yield base
+                    if pname == "on_boundary" and ids == "auto":
+                        # an answer sent at the very instant a poll slice ends: asyncio gives no order between the two
+                        # timers, so explore both (seeded permutation of equal-deadline timers)
+                        for tie in (1, 2, 3, 4):
+                            yield dict(base, tie=tie)
+                            yield dict(base, tie=tie, inject="timer")
                     # notification interleavings
                     positions = list(range(n + 1))
                     combos = [(p,) for p in positions] + [(p, q) for p in positions for q in positions if p <= q]
@@ -114,20 +120,31 @@ def exec_case(ctx, case: Dict[str, Any]) -> None:
                 req = await pipe.srv_recv.receive()
                 i = int(req.params["tag"].split("-")[1])
                 rid_of[i] = req.id
-            for t, kind, who in case["answers"]:
-                await vsleep_until(t)
-                if kind == "notify":
-                    pipe.srv_send.send_nowait(parse_message(
-                        {"jsonrpc": "2.0", "method": "notifications/message", "params": {"level": "info"}}))
-                elif kind == "error":
-                    sent_at[who] = loop.time()
-                    pipe.srv_send.send_nowait(parse_message(
-                        {"jsonrpc": "2.0", "id": rid_of[who],
-                         "error": {"code": -32603, "message": f"for-caller-{who}"}}))
+            timer = case.get("inject") == "timer"
+            groups: Dict[float, List[Any]] = {}
+
+            def put(obj, who=None, t=None):
+                if who is not None:
+                    sent_at[who] = loop.time() if t is None else t
+                if timer and t is not None:
+                    groups.setdefault(t, []).append(obj)   # same-instant answers keep their scripted order
                 else:
-                    sent_at[who] = loop.time()
-                    pipe.srv_send.send_nowait(parse_message(
-                        {"jsonrpc": "2.0", "id": rid_of[who], "result": {"tag": f"caller-{who}"}}))
+                    pipe.srv_send.send_nowait(obj)
+
+            for t, kind, who in case["answers"]:
+                if not timer:
+                    await vsleep_until(t)
+                if kind == "notify":
+                    put(parse_message({"jsonrpc": "2.0", "method": "notifications/message", "params": {"level": "info"}}), t=t)
+                elif kind == "error":
+                    put(parse_message({"jsonrpc": "2.0", "id": rid_of[who],
+                                       "error": {"code": -32603, "message": f"for-caller-{who}"}}), who, t)
+                else:
+                    put(parse_message({"jsonrpc": "2.0", "id": rid_of[who], "result": {"tag": f"caller-{who}"}}), who, t)
+            for gt, objs in groups.items():
+                loop.call_at(max(gt, loop.time()), lambda objs=objs: [pipe.srv_send.send_nowait(o) for o in objs])
+            if timer:
+                await vsleep_until(max([a[0] for a in case["answers"]] + [0]) + 0.001)
 
         tasks = [asyncio.create_task(caller(i), name=f"caller-{i}") for i in range(n)]
         st = asyncio.create_task(server(), name="server")
